@@ -38,6 +38,8 @@
 mod instance;
 mod transform;
 mod traversal;
+#[cfg(all(googlefonts_fontations_verif, feature = "std"))]
+pub use traversal::verif as verif_traversal_hooks;
 
 #[cfg(test)]
 mod traversal_tests;
